@@ -309,6 +309,21 @@ func persistField(e *Ent, f Field, ctx *boltz.PersistContext) {
 	if !present {
 		v = nil
 	}
+	if len(f.Prefix) == 1 && f.Kind == KStr && !(v == nil && ctx.IsCreate && e.NilAbsent) {
+		// the way a strategy usually writes a field of a nested part: ask the entity bucket for the sub-bucket and set
+		// the value there, the setter consults the checker (and the bucket its own state)
+		nb := ctx.Bucket.GetOrCreateBucket(f.Prefix[0])
+		if v == nil {
+			nb.SetStringP(f.StoreKey(), nil, ctx.FieldChecker)
+		} else {
+			sv := v.(string)
+			nb.SetStringP(f.StoreKey(), &sv, ctx.FieldChecker)
+		}
+		if nb.HasError() && !ctx.Bucket.HasError() {
+			ctx.Bucket.SetError(nb.GetError())
+		}
+		return
+	}
 	if !ctx.ProceedWithSet(f.StoreKey()) {
 		return
 	}
